@@ -24,7 +24,7 @@ from . import common
 PID = "C07"
 PROPS = "C07a"
 OWN_V = ["Ops/Slice.v", "Ops/Deriv.v", "Ops/Deriv2.v", "Ops/DerivSpec.v", "Ops/DerivStencil.v", "Ops/Causal.v",
-         "Ops/DerivND.v", "Corr/CheckC07a.v", "Props/C07a.v"]
+         "Ops/Axis.v", "Ops/AxisOps.v", "Ops/DerivND.v", "Corr/CheckC07a.v", "Props/C07a.v"]
 
 # Genuine defects of the unchanged tree handled as known findings by this part: none.
 # (The Laplacian kind defect was repaired in /repo by 5e5f222; reintroducing it is a VIOLATION.
@@ -229,7 +229,7 @@ def emit(cid, family, p, A, B):
     raise KeyError(family)
 
 
-HEADER = ("From Coq Require Import QArith Qcanon ZArith List.\nFrom PV Require Import Dict QcInst Check Slice Deriv Deriv2 Causal CheckC07a.\n"
+HEADER = ("From Coq Require Import QArith Qcanon ZArith List.\nFrom PV Require Import Dict QcInst Check Slice Deriv Deriv2 Causal Axis AxisOps CheckC07a.\n"
           "Import ListNotations.\nOpen Scope nat_scope.\n")
 
 _ENTRY = re.compile(r"\(\s*(\d+)\s*,\s*\[([^\]]*)\]\s*\)")
